@@ -1,7 +1,7 @@
 (* C07 -- deciding obligations. Statements only, closed by the lemmas proved in Xform/*Proofs.v. *)
 From Coq Require Import List Arith Bool.
 From VF Require Import Base.RingOps Base.Mat Base.Tensor Base.TensorProofs.
-From VF Require Import Xform.Routing Xform.RoutingProofs Xform.Gateset Xform.GatesetProofs.
+From VF Require Import Xform.Routing Xform.RoutingProofs Xform.RoutingSem Xform.RoutingSemProofs Xform.Gateset Xform.GatesetProofs Base.K8.
 Import ListNotations.
 
 (* ---- MappingManager: for every swap sequence the two arrays stay inverse bijections ---- *)
@@ -62,6 +62,35 @@ Theorem C07_route_ok_sound_plain : forall n orig routed init final g d,
     (forall k, k < length init -> nth k (l2p (final_mm (mm_init init) ls)) 0 = nth (nth k init 0) final 0).
 Proof. exact route_ok_sound_plain. Qed.
 Print Assumptions C07_route_ok_sound_plain.
+
+(* ---- meaning on states (any ring with the laws, any number of qubits, any matrices for the operations) ---- *)
+(* the emission model: emitted operations read through the final mapping = the logical stream on the initial reading *)
+Theorem C07_emit_sem : forall (K : Type) (O : Ops K) (L : Laws O) (mat_of_id : nat -> matrix (K:=K)) n ls m (phi : tensor (K:=K)),
+  mm_ok n m -> wf_ls n ls -> forall i, length i = n -> bits i ->
+  view n (p2l (final_mm m ls)) (run O (map (den_p O mat_of_id) (emit m ls)) phi) i
+  = run O (map (den_l mat_of_id) (ops_of ls)) (view n (p2l m) phi) i.
+Proof. exact @emit_sem. Qed.
+Print Assumptions C07_emit_sem.
+
+(* route_ok_sound with semantics (DESIGN A.6 orientation): an accepted certificate (no directed-graph pieces) means the
+   routed circuit, read through the reported final mapping, computes the original circuit on the initial reading *)
+Theorem C07_route_ok_sem : forall (K : Type) (O : Ops K) (L : Laws O) (mat_of_id : nat -> matrix (K:=K))
+  n orig routed init final g d,
+  forallb plain routed = true ->
+  route_ok n orig routed init final g d = true ->
+  exists mfin : mm,
+    mm_ok n mfin /\
+    (forall k, k < length init -> nth k (l2p mfin) 0 = nth (nth k init 0) final 0) /\
+    forall (phi : tensor (K:=K)) i, length i = n -> bits i ->
+      view n (p2l mfin) (run O (map (den_p O mat_of_id) routed) phi) i
+      = run O (map (den_l mat_of_id) orig) (view n (p2l (mm_init init)) phi) i.
+Proof. exact @route_ok_sem. Qed.
+Print Assumptions C07_route_ok_sem.
+
+(* the block RouteCQC emits for a swap on a one-way edge is a SWAP: CNOT (H x H) CNOT (H x H) CNOT = SWAP, exactly *)
+Theorem C07_directed_swap_block : Harness.list_eqb (Harness.list_eqb k8_eqb) block8 (swap_matrix K8Ops) = true.
+Proof. exact directed_swap_block. Qed.
+Print Assumptions C07_directed_swap_block.
 
 (* ---- Gateset / GateFamily membership ---- *)
 (* type families follow isinstance (any position along the mro), instance families the phase class *)
@@ -128,6 +157,9 @@ Example C07_route_ok_example :
            [ROp (mkO 5 [1] []); RSwap 0 1; ROp (mkO 7 [1; 2] [])]
            [0; 1; 2] [1; 0; 2] [(0, 1); (1, 2)] false = true.
 Proof. reflexivity. Qed.
+(* the ring laws assumed by the semantic theorems are satisfiable (exact instance Q(zeta_8)) *)
+Example C07_laws_inhabited : Laws K8Ops.
+Proof. exact K8Laws. Qed.
 (* and certificates that are rejected: operation off the edge / wrong reported map / reordered dependent operations *)
 Example C07_route_ok_rejects :
   route_ok 3 [mkO 7 [0; 2] []] [ROp (mkO 7 [0; 2] [])] [0; 1; 2] [0; 1; 2] [(0, 1); (1, 2)] false = false
